@@ -269,6 +269,9 @@ func (lr *lbRun) finish(res *lbResult, level string, extra map[string]interface{
 	// generation outcome by-products
 	for _, c := range res.GenFail {
 		f := layerb.Finding{Conv: c.ID, Family: c.Family, Kind: "generation", Note: "goverter rejected an input the documented rules cover: " + firstLine(c.GenErr)}
+		if c.GenCrash != "" {
+			f.Note = "goverter " + c.GenCrash + " (C13: every input ends in output or a diagnostic): " + firstLine(c.GenErr)
+		}
 		if k := matchKnown(known, prop, f.Conv, f.Kind, f.Note); k != nil {
 			knownHits[k.What]++
 			continue
